@@ -10,35 +10,40 @@ META = {
     "engine": "E1+E2+E3+E4",
     "text": "Coq theorems over an executable interleaving model of ThreadPoolExecutor (external submitters, workers: own "
             "local queue -> steal -> blocking global pop, balance thread, stop: join balancer / one STOP marker per worker "
-            "/ join workers, enqueue_task: owner-only local push below capacity) on top of an abstract ticket queue "
-            "(exactly-once delivery in ticket order, bounded capacity with blocking push - what C01 establishes), for "
-            "every worker count, capacity, stealing/balancing setting, client program, task graph and schedule: "
-            "c07_run_once - a task starts at most once, only if its submission was accepted, and only on a worker thread "
-            "(inside the executor's RunnerScope); c07_stop_drains - when stop() has returned every task whose submission "
-            "returned before stop() was called and every task pushed into a local queue has finished (its future is "
-            "ready).  Supporting invariants: global-queue tickets (every pop ticket is served or has a worker waiting "
-            "for exactly it; a worker exits only on a consumed STOP marker), an idle/exited worker has an empty local "
-            "queue, location of accepted tasks (finished / held by a worker or the balancer / local queue / global queue "
-            "ahead of every STOP marker), token counting, stop() sequencing.  Every decision expression of executor.cpp "
-            "(local-capacity test, marker loop bound and its position after the balancer join, task-type switch, "
-            "_running tests, reserve sizes, execute()'s failure test, BasicExecutor::invoke's refusal) and the memory "
-            "orders of start/stop/keep_balance/new-thread executor are regenerated from the source on every run and "
-            "pinned by lemmas.  Tie: the real ThreadPoolExecutor (executor.cpp compiled through the atomic shim, "
-            "worker/balance threads created by start() under the deterministic scheduler, incl. spurious futex returns) "
-            "runs the same programs; for small programs every run order it produces must be one the exhaustively "
-            "explored extracted model admits; monitors check the property text directly on every run (run counters, "
-            "is_running_in() inside tasks, drain and future readiness at stop() return, refused submissions, stop() "
-            "never returning), also for InplaceExecutor, AlwaysUseNewThreadExecutor and an executor whose invoke refuses.",
-    "note": "Liveness (stop() eventually returns) is not a Coq theorem: it is checked as absence of deadlock in the "
-            "exhaustive model exploration of the small programs and as DSCHED-STUCK on the real code; it is false by "
-            "design when a task blocks pushing into a full global queue that only its own worker could drain, so "
-            "generated task graphs that push to the global queue from workers get a global capacity that cannot fill.  "
-            "In the model every submission to the pool is accepted (enqueue_task returns 0, pinned by a lemma); refused "
-            "submissions, InplaceExecutor and AlwaysUseNewThreadExecutor are covered by monitors only.  Usage rules in "
-            "the theorems: at least one worker (drain), every task id submitted at one place only (run-once), one "
-            "start()/stop() cycle.  The queue is abstract in the model (composition with C01 by its statement).  "
-            "Trusted: Coq kernel; translator; extraction + OCaml explorer; macro shim and dsched (sequentially "
-            "consistent interleavings only).",
+            "/ join workers, enqueue_task: owner-only local push below capacity, its result tested by the regenerated "
+            "execute()/submit() failure test) on top of an abstract ticket queue (exactly-once delivery in ticket order, "
+            "bounded capacity with blocking push - what C01 establishes), for every worker count, capacity, "
+            "stealing/balancing setting, client program, task graph and schedule: c07_run_once - a task starts at most "
+            "once, only if its submission was accepted, and only on a worker thread (inside the executor's RunnerScope); "
+            "c07_failed_never_runs - a submission that reported failure never starts (the pool never refuses); "
+            "c07_stop_drains - when stop() has returned every task whose submission returned before stop() was called "
+            "and every task pushed into a local queue has finished (its future is ready); c07_no_deadlock / "
+            "c07_stop_makes_progress - no reachable deadlock, stop() cannot get stuck, under the usage rules "
+            "queue_cannot_fill (the global queue has room for every push ticket the programs can take: excludes a task "
+            "blocked in push on a full queue only its own worker could drain), one_joiner, some_stop.  Small models with "
+            "theorems for InplaceExecutor (c07_inplace: each submission, re-entrant ones included, runs exactly once "
+            "inside the caller, inside a RunnerScope of that executor, before invoke returns 0; caller's scope restored) "
+            "and AlwaysUseNewThreadExecutor (c07_newthread_*: one dedicated thread per task, each starts one task, in "
+            "scope; join()/destructor returns only on _running == 0 and then every accepted task and everything it "
+            "spawned has finished).  The models read the regenerated source facts: every decision expression of "
+            "executor.cpp, the statement order of stop() (_running cleared, balancer joined, marker loop, worker joins), "
+            "of InplaceExecutor::invoke and of AlwaysUseNewThreadExecutor::invoke/join, results of enqueue_task/invoke, "
+            "memory orders; changing any of them re-opens a lemma the theorems rest on.  Tie: the real executors "
+            "(executor.cpp compiled through the atomic shim, worker/balance threads created by start() under the "
+            "deterministic scheduler, incl. spurious futex returns) run the same programs; for small programs every run "
+            "order must be one the exhaustively explored extracted pool model admits; monitors check the property text "
+            "directly on every run (run counters, is_running_in() inside tasks, drain and future readiness at stop() "
+            "return, refused submissions, stop() never returning) for pool, inplace, new-thread and refusing executors.",
+    "note": "Liveness is 'no reachable deadlock' (some thread can always move until everything is done) under the named "
+            "usage rules; turning it into 'stop() eventually returns' needs a fair scheduler (standard argument, not "
+            "mechanised).  Without queue_cannot_fill the statement is false by design (self-blocking push); generated "
+            "task graphs that push to the global queue from workers therefore get a capacity that cannot fill, and tiny "
+            "capacities are exercised with external submitters only.  The InplaceExecutor / AlwaysUseNewThreadExecutor "
+            "models are tied to the source by the translator facts and by the monitors, not by an outcome-set "
+            "comparison.  Usage rules in the theorems: at least one worker (drain), every task id submitted at one "
+            "place only (run-once), one start()/stop() cycle.  The queue is abstract in the pool model (composition "
+            "with C01 by its statement).  Trusted: Coq kernel; translator (incl. the statement-order kind 'order'); "
+            "extraction + OCaml explorer; macro shim and dsched (sequentially consistent interleavings only).",
 }
 
 
